@@ -275,7 +275,7 @@ def run(tier, seed):
             spec["progdir"] = os.path.join(root, "empty")
         hist = list(itertools.product(range(n), repeat=3))
         if n >= 3 and len(hist) > 12:
-            hist = rng.sample(hist, 12) if tier == "quick" else hist
+            hist = rng.sample(hist, 12) if (tier == "quick" or n >= 5) else hist
         steps = []
         for h in hist:
             steps.append({"new": spec})
